@@ -171,7 +171,12 @@ fn convert_dockerignore_glob(glob: &str, file_path: &Path) -> Result<Regex, Erro
     #[cfg(not(windows))]
     let path = file_path.to_string_lossy().to_string();
 
-    let pattern = format!("^{}/{}(?:/.*)?$", regex::escape(&path), pattern);
+    // (the context directory may be the root directory itself: no separator twice)
+    let pattern = format!(
+        "^{}/{}(?:/.*)?$",
+        regex::escape(path.trim_end_matches('/')),
+        pattern
+    );
 
     Regex::new(&pattern)
 }
